@@ -77,8 +77,12 @@ func writeBucketsToConsole(out io.Writer, p *Palette, a *stack.Aggregated, pf pa
 		if match != nil && !match.MatchString(header) {
 			continue
 		}
-		_, _ = io.WriteString(out, header)
-		_, _ = io.WriteString(out, p.StackLines(&e.Signature, srcLen, pkgLen, pf))
+		if _, err := io.WriteString(out, header); err != nil {
+			return err
+		}
+		if _, err := io.WriteString(out, p.StackLines(&e.Signature, srcLen, pkgLen, pf)); err != nil {
+			return err
+		}
 	}
 	return nil
 }
@@ -97,8 +101,12 @@ func writeGoroutinesToConsole(out io.Writer, p *Palette, s *stack.Snapshot, pf p
 		if match != nil && !match.MatchString(header) {
 			continue
 		}
-		_, _ = io.WriteString(out, header)
-		_, _ = io.WriteString(out, p.StackLines(&e.Signature, srcLen, pkgLen, pf))
+		if _, err := io.WriteString(out, header); err != nil {
+			return err
+		}
+		if _, err := io.WriteString(out, p.StackLines(&e.Signature, srcLen, pkgLen, pf)); err != nil {
+			return err
+		}
 	}
 	return nil
 }
